@@ -656,6 +656,11 @@ func (g *Gen) spell(p string, cleanSame bool) string {
 		if strings.HasPrefix(p, "d0/") && g.fs.kind["ld0"] == 'l' {
 			opts = append(opts, "ld0/"+p[3:])
 		}
+		if g.fs.kind["ld0"] == 'l' {
+			// ".." after a symbolic link: cleaned lexically, and here the physical
+			// path names the same object (ld0 -> d0 lives beside d0)
+			opts = append(opts, "ld0/../"+p)
+		}
 		if p == "d0" && g.fs.kind["ld0"] == 'l' {
 			opts = append(opts, "ld0", "ld0/", "./ld0")
 		}
